@@ -286,8 +286,9 @@ class C18(Prop):
     exhaustive = {
         'quick': 'all histories of depth 2 over the full op pool and of depth '
                  '3 over the reduced op pool, from 5 initial lists',
-        'thorough': 'all histories of depth 3 over the full op pool and of '
-                    'depth 4 over the reduced op pool, from 5 initial lists',
+        'thorough': 'all histories of depth 3 over the full op pool from 3 '
+                    'initial lists (depth 2 from the other 2) and of depth 4 '
+                    'over the reduced op pool from the initial list with twins',
     }
 
     def _dfs(self, initial, depth, reduced, want, counter):
@@ -306,9 +307,16 @@ class C18(Prop):
     def cases(self, tier, seed, want):
         counter = [0]
         full_d, red_d = (2, 3) if tier == 'quick' else (3, 4)
-        for init in INITIAL:
-            yield from self._dfs(init, full_d, False, want, counter)
-            yield from self._dfs(init, red_d, True, want, counter)
+        for ii, init in enumerate(INITIAL):
+            # thorough: depth 3 over the full pool from three initial lists,
+            # depth 4 over the reduced pool from the list with textual twins
+            # (the op pool has grown to ~90 / ~35 operations)
+            if tier == 'quick' or ii in (0, 2, 3):
+                yield from self._dfs(init, full_d, False, want, counter)
+            else:
+                yield from self._dfs(init, 2, False, want, counter)
+            if tier == 'quick' or ii == 3:
+                yield from self._dfs(init, red_d, True, want, counter)
         n = 6000 if tier == 'quick' else 120000
         k = counter[0]
         for j in range(n):
